@@ -158,8 +158,15 @@ def make_program(work, params):
         h = lay.getLayoutHandler(comm, dict(PHYS), list(nprocs), eta)
         n = 0
         for dtype in (float, complex):
-            g = Grid(eta, [None] * 4, h, 'v_parallel', comm, dtype=dtype)
+            g = Grid(eta, [None] * 4, h, 'v_parallel', comm, dtype=dtype, allocateSaveMemory=True)
             g.getAllData()[:] = 1.0 + rank
+            # layout changes of a grid that owns save memory (real and complex), without and with a held save
+            for lay_ in ('flux_surface', 'poloidal', 'v_parallel'):
+                g.setLayout(lay_)
+            g.saveGridValues()
+            g.setLayout('poloidal')
+            g.setLayout('flux_surface')
+            g.restoreGridValues()
             for root in range(comm.Get_size()):
                 dicts = [{}, {0: 0}, {0: shape[0] - 1, 2: 1}, {3: range(0, shape[3])}, {0: range(1, shape[0]), 2: range(0, max(1, shape[2] // 2))},
                          {2: range(shape[2] - 1, shape[2])}, {1: 0, 3: shape[3] - 1}]
